@@ -362,3 +362,66 @@ theorem goRound_mono (d t t' : Int) (h : t ≤ t') : goRound d t ≤ goRound d t
     split <;> split <;> omega
 
 end Kap.C12
+
+namespace Kap.C12
+open Spec
+set_option linter.unusedSimpArgs false
+
+/-! ### JoinIntoPoint = the joined point of the spec -/
+
+theorem joinFields_eq (cfg : JCfg) (first : JMsg) (vs : List (Option JMsg)) (ns : List String) (acc : List (String × String))
+    (hl : vs.length ≤ ns.length) :
+    joinFields cfg first.fields vs ns acc =
+      if (!vs.all Option.isSome && (fillToken cfg.fill).isNone) then none
+      else some (((vs.zip ns).flatMap (contribution cfg first)).foldl (fun a kv => putField kv.1 kv.2 a) acc) := by
+  induction vs generalizing ns acc with
+  | nil => simp [joinFields]
+  | cons v vs ih =>
+    cases ns with
+    | nil => simp at hl
+    | cons pre pres =>
+      simp only [List.length_cons, Nat.add_le_add_iff_right] at hl
+      cases v with
+      | some p =>
+        simp only [joinFields, List.zip_cons_cons, List.flatMap_cons, List.foldl_append, List.all_cons, Option.isSome_some, Bool.true_and]
+        rw [ih pres _ hl]
+        simp only [contribution, List.foldl_map]
+      | none =>
+        cases hf : cfg.fill with
+        | none =>
+          rw [joinFields]
+          simp only [hf]
+          simp [fillToken]
+        | null =>
+          simp only [joinFields, hf, List.zip_cons_cons, List.flatMap_cons, List.foldl_append]
+          rw [ih pres _ hl]
+          simp [contribution, List.foldl_map, hf, fillToken]
+        | num tok =>
+          simp only [joinFields, hf, List.zip_cons_cons, List.flatMap_cons, List.foldl_append]
+          rw [ih pres _ hl]
+          simp [contribution, List.foldl_map, hf, fillToken]
+
+theorem findSome?_id_eq {β : Type} (l : List (Option β)) : l.findSome? id = (l.filterMap id).head? := by
+  induction l with
+  | nil => rfl
+  | cons x xs ih =>
+    cases x with
+    | none => simp only [List.findSome?_cons, List.filterMap_cons, id]; exact ih
+    | some v => simp only [List.findSome?_cons, List.filterMap_cons, id, List.head?_cons]
+
+/-- `JoinIntoPoint` (the loop with its early `return nil`) computes exactly the joined point of the spec. -/
+theorem joinIntoPoint_eq_joinedPoint (cfg : JCfg) (s : JSet JMsg) (hl : s.values.length ≤ cfg.names.length) :
+    joinIntoPoint cfg s = joinedPoint cfg s := by
+  unfold joinIntoPoint joinedPoint JSet.first?
+  rw [findSome?_id_eq]
+  cases hh : s.values.filterMap id with
+  | nil => rfl
+  | cons first rest =>
+    simp only [List.head?_cons]
+    rw [joinFields_eq cfg first s.values cfg.names [] hl]
+    by_cases hc : (!s.values.all Option.isSome && (fillToken cfg.fill).isNone) = true
+    · simp [hc]
+    · simp only [hc, Bool.false_eq_true, if_false]
+      rfl
+
+end Kap.C12
